@@ -1833,6 +1833,30 @@ def m_replace(E, st, fid, t, args, dest_ty):
         return E.opaque_call(st, fid, t, args, dest_ty)
     old = E.load(st, d[2])
     nv = args[1]
+    if d[2][0] == 'pairs' and nv == ('uninit_arr',):
+        # the whole slot array is moved out of a container and replaced by a fresh uninitialised one (safe code: an
+        # array of MaybeUninit is plain data).  What was live in it travels with the array value: a carrier
+        # container (len 0, the live slots as uncovered extras) stands for it until it is built into a container
+        # again (Aggregate) -- or is lost, which the exit checks report as a leak
+        m1 = st.maps[d[2][1]]
+        z = st.zone
+        if m1.holes or not slots.empty(z, m1.hole_rng) or m1.pending is not None:
+            raise Unproven('slot array moved out of a container that has dead slots below len')
+        c = E.new_map(st, m1.cap, m1.name, inv=False, length=0)
+        mc = st.maps[c]
+        if z.entails_eq(m1.len, 0):
+            mc.extras, mc.extra_rng = m1.extras, m1.extra_rng
+        elif not m1.extras and slots.empty(z, m1.extra_rng):
+            mc.extra_rng = (0, m1.len)
+            m1.hole_rng = (0, m1.len)       # (the container still counts len elements, none of which is there any more)
+        else:
+            raise Unproven('slot array moved out of a container with live slots on both sides of len')
+        mc.contents = m1.contents
+        mc.replaced = m1.replaced or d[2][1]
+        mc.owned_extras = m1.owned_extras
+        m1.extras, m1.extra_rng, m1.contents, m1.examined = (), (0, 0), (), None
+        st.log('array-moved', d[2][1], c)
+        return [('ret', st, ('arr_of', c))]
     if old[0] == 'map' and nv[0] == 'map' and old[1] != nv[1]:
         # a whole container exchanged in place (`mem::replace(self, fresh)`): the place keeps its identity (the
         # schemas and the exit checks speak about the receiver) and takes over the abstract state of the value
